@@ -208,7 +208,10 @@ pub fn check_type(ty: usize) -> Verdict {
         // lookups with the declared symbol
         let want = m.order.iter().copied().find(|&k| m.row.units[k].symbol == row.symbol);
         if (t.unit_from_symbol)(row.symbol) != want || (t.from_symbol)(row.symbol) != want {
-            fail!("{}: symbol {:?} resolves to {:?}, expected {:?}", name, row.symbol, (t.unit_from_symbol)(row.symbol), want);
+            fail!(
+                "{}: symbol {:?}: unit_from_symbol gives {:?}, from_symbol gives {:?}, expected {:?}",
+                name, row.symbol, (t.unit_from_symbol)(row.symbol), (t.from_symbol)(row.symbol), want
+            );
         }
         if (t.unit_to_string)(i) != row.symbol {
             fail!("{}: {} displays as {:?}", name, row.konst, (t.unit_to_string)(i));
